@@ -48,7 +48,7 @@ CHECKS = {
             "A relation between two executions of the real model: record for record the same pids and positions, plus the reversed clock at every step. Sampling over layouts, release tables and schemes.",
             "Scalar forcing left out of the pair comparison (values identify frames); tolerance 1e-6 cells.",
             "DESIGN.md section 6, C10"),
-    "C11": ("exploration", WM + " with a seeded randomness seam: injected numpy Generator, clouds of 2e4..1e6 particles in an analytic still-water plug-in world, moment / covariance / independence statistics at 6.5 standard errors, bit-identity across seeds at zero coefficients, vertical random walk with and without a vertical current, continuation after a warm start from 32-bit positions",
+    "C11": ("exploration", WM + " with a seeded randomness seam: injected numpy Generator, clouds of 2e4..1e6 particles in an analytic still-water plug-in world, moment / covariance / independence statistics at 6.5 standard errors, bit-identity across seeds at zero coefficients, vertical random walk with and without a vertical current, non-uniform grid spacing (analytic world and ROMS grids read from files, also beyond 32768 cells), clouds beyond 65536 particles, continuation after a warm start from 32-bit positions",
             "The randomness source is owned by the simulator (one integer decides every draw), the statement is distributional; each seeded parameter setting is judged per step and cumulatively with wide deterministic bands. Sampling over D, Dz, dt, dx, dy over several decades.",
             "Bands of 6.5 standard errors; normality not tested; analytic plug-in grid/forcing are stubs.",
             "DESIGN.md section 6, C11"),
@@ -76,7 +76,7 @@ CHECKS = {
             "The same seeded simulation is written in every spelling and variant and the real model is run on each; outputs must be identical. No fault or history dimension; the simulator contributes the worlds and the seeded RNG seam for diffusion.",
             "Restricted to the version-1 vocabulary; forcing.module always given.",
             "DESIGN.md section 6, C18"),
-    "C19": ("exploration", WM + " with recording shims on all eight modules: call-order / exactly-once / visibility rules over the recorded history, cold and warm start, plug-in precedence with an importable decoy, sampled runs through ladim.main.main(), isolation of a plain run made before and after the run with plug-ins in the same process",
+    "C19": ("exploration", WM + " with recording shims on all eight modules: call-order / exactly-once / visibility rules over the recorded history, cold and warm start, plug-in precedence with an importable decoy and with files named like LADiM's own modules, IBM sections without options, IBM classes derived from the base class, sampled runs through ladim.main.main(), isolation of a plain run made before and after the run with plug-ins in the same process",
             "Ordering and exactly-once over the recorded call log and state snapshots of every step of seeded runs; plug-ins given by absolute path, relative path with and without .py, and module name.",
             "The shims override only existing methods and delegate unchanged.",
             "DESIGN.md section 6, C19"),
